@@ -79,7 +79,8 @@ Definition events_in (d0 : dict) (o : op) : list event :=
 Definition op_kp (o : op) : option path :=
   match o with
   | Get _ kp _ | SetV _ kp _ _ | Del _ kp _ | Pop _ kp _ _ | PopItem _ kp | Clear _ kp
-  | SetDefault _ kp _ _ | Update _ kp _ | Contains _ kp _ | Len _ kp | Keys _ kp => Some kp
+  | SetDefault _ kp _ _ | Update _ kp _ | Contains _ kp _ | Len _ kp | Keys _ kp
+  | View _ kp | EqD _ kp _ | GetM _ kp _ _ => Some kp
   | _ => None
   end.
 
@@ -203,6 +204,16 @@ Proof.
       * unfold merged. rewrite Er2. simpl. split; [exact Hg2 | intros e H; discriminate].
     + simpl. split; [exact Hg1|]. intros e' H. inversion H; subst e'.
       destruct (C06_envfacts.load_err_kind _ _ _ _ Wc1 El) as [ -> | [ -> | -> ] ]; auto 10.
+  - (* View *)
+    destruct (nav fl d0 kp) as [d|e] eqn:Hn; simpl; apply Hsame;
+      [intros e H; discriminate | eapply nav_err_benign; eassumption].
+  - (* EqD *)
+    destruct (nav fl d0 kp) as [d|e] eqn:Hn; simpl; apply Hsame;
+      [intros e H; discriminate | eapply nav_err_benign; eassumption].
+  - (* GetM *)
+    destruct (nav fl d0 kp) as [d|e] eqn:Hn; simpl.
+    + destruct (get k d); simpl; apply Hsame; intros e H; discriminate.
+    + apply Hsame. eapply nav_err_benign; eassumption.
 Qed.
 
 (** Under the guard the proxy's edit is always reported and merged (never the
